@@ -484,6 +484,20 @@ class PoolManager(RequestMethods):
                     new_headers.pop(header, None)
             kw["headers"] = new_headers
 
+        # A Host header that merely repeats the host of the URL we are leaving
+        # (ProxyManager adds one to forwarded requests) would be wrong for the
+        # new location.
+        stale_host = [
+            header
+            for header in kw["headers"]
+            if header.lower() == "host" and kw["headers"][header] == u.netloc
+        ]
+        if stale_host:
+            new_headers = kw["headers"].copy()
+            for header in stale_host:
+                new_headers.pop(header, None)
+            kw["headers"] = new_headers
+
         try:
             retries = retries.increment(method, url, response=response, _pool=conn)
         except MaxRetryError:
